@@ -26,8 +26,8 @@ func init() {
 func runeSweep(prop string, args []string) int {
 	f := mustFlags(args)
 	out := evid.New(prop)
-	if (prop == "C08") != isBinaryBuild() {
-		fmt.Println("rune sweep: c02-runes needs the default build, c08-runes the binary_log build")
+	if (prop != "C02") != isBinaryBuild() {
+		fmt.Println("rune sweep: c02-runes needs the default build, c08-runes / c09-runes the binary_log build")
 		return 2
 	}
 	out.Sub = "runes"
@@ -74,6 +74,10 @@ func runeSweep(prop string, args []string) int {
 		n++
 		bad := func(sig, desc string) {
 			out.Violate(sig, desc, map[string]interface{}{"check": "rune-sweep", "code_point": fmt.Sprintf("U+%04X", cp), "bytes": fmt.Sprintf("%q", clipb(w.b))})
+		}
+		if prop == "C09" {
+			c09runeCheck(out, w.b, cp, text, raw, full)
+			continue
 		}
 		if prop == "C08" {
 			w.b = cbor.DecodeIfBinaryToBytes(w.b)
@@ -140,8 +144,8 @@ func lengthSweep(prop string, args []string) int {
 	f := mustFlags(args)
 	out := evid.New(prop)
 	out.Sub = "lengths"
-	if (prop == "C08") != isBinaryBuild() {
-		fmt.Println("length sweep: c02-lengths needs the default build, c08-lengths the binary_log build")
+	if (prop != "C02") != isBinaryBuild() {
+		fmt.Println("length sweep: c02-lengths needs the default build, c08-lengths / c09-lengths the binary_log build")
 		return 2
 	}
 	st := gen.DefaultSettings()
@@ -185,6 +189,10 @@ func lengthSweep(prop string, args []string) int {
 		ks := "K" + string(key) // never collides with the fixed names below
 		l.Log().Str(ks, string(val)).Bytes("bytes", val).Hex("hex", val).Ints("ints", ints).Bools("bools", bools).Strs("strs", strs).Msg(string(val))
 		cnt++
+		if prop == "C09" {
+			c09lenCheck(out, w.b, n, ks, val, ints, bools, strs)
+			continue
+		}
 		if prop == "C08" {
 			w.b = cbor.DecodeIfBinaryToBytes(w.b)
 		}
@@ -243,7 +251,7 @@ func lengthSweep(prop string, args []string) int {
 		}
 	}
 	// every prefix length of both address families, through every entry point that carries a prefix
-	if f.Shard == 0 {
+	if f.Shard == 0 && prop != "C09" {
 		for fam, bits := range []int{32, 128} {
 			for ones := 0; ones <= bits; ones++ {
 				ip := make(net.IP, bits/8)
